@@ -2135,6 +2135,9 @@ class Interp:
             if isinstance(v, NodeV):
                 return [(cfg, NodeV(v.cls, {**v.fields, "$copy": TRUE}, v.path))]
             return [(cfg, v)]
+        if fname in ("sorted", "reversed", "iter", "enumerate", "any", "all", "min", "max", "len") and len(args) >= 1 and isinstance(args[0], DictV) \
+                and not any(isinstance(k, App) for k, _ in args[0].items) and fname != "len":
+            args = [ListV([k for k, _ in args[0].items], "list")] + list(args[1:])  # iterating a dictionary gives its keys
         if fname == "sorted" and len(args) == 1 and isinstance(args[0], ListV) and not kwargs:
             def skey(v):
                 if isinstance(v, Const):
